@@ -19,6 +19,8 @@ pub struct Plan {
     pub skip: u8,                  // 0 off, 1 principal = address in a mapping, 2 principal in no mapping, 3 on without address
     pub napp: usize,
     pub user_maps: Vec<(u64, u64, String, Vec<u8>)>,   // caller-supplied mappings (start, size, name, identifier)
+    pub blame_idx: Option<usize>,   // blame this scenario thread (with or without a crash context)
+    pub exit_between: Option<usize>, // with a history: after the abandoned request this thread is taken by another tracer (it exists, but cannot be attached any more)
 }
 
 pub fn maps_tokens(l: &mut Line, w: &World) {
@@ -35,13 +37,16 @@ pub fn maps_tokens(l: &mut Line, w: &World) {
 pub fn gen_plan(rng: &mut Rng, focus: &str, tier: &str, case_idx: u64) -> Plan {
     let force_k1 = focus == "c05" && case_idx == 0;   // the recorded finding K1 is exercised on every run
     // one fixed C06 shape per run: every chunk-boundary offset of the stack pointer among the threads that the size limit shortens
-    let boundary = focus == "c06" && case_idx == 1;
+    let boundary = (focus == "c06" && case_idx == 1) || (focus == "c07" && case_idx == 2);   // (C07: shortened stacks are regions of the memory list too)
     // one fixed C20 shape per run: sanitising on, the principal mapping writable and not executable, referenced from stack words only
     // a third fixed C20 shape: the crash context's stack pointer lies in no mapping (nothing within the guard distance either)
     // and its instruction pointer outside the principal mapping: the crash thread's stack cannot be located, which is a
     // soft matter, not a reason to fail the dump
     let lost_crash_stack = focus == "c20" && case_idx == 3;
-    let stack_only = focus == "c20" && (case_idx == 1 || case_idx == 2);
+    // a fourth fixed C20 shape: a thread whose ONLY reference to the principal mapping sits in an outer frame more than 32 KiB
+    // above its stack pointer
+    let deep_ref = focus == "c20" && case_idx == 4;
+    let stack_only = focus == "c20" && (case_idx == 1 || case_idx == 2 || deep_ref);
     let low_principal = focus == "c20" && case_idx == 2;     // the principal mapping lies BELOW the executable
     let many = boundary || (focus == "c06" && rng.chance(1, 2));
     let nthreads = if force_k1 || stack_only { 3 } else if boundary { 27 } else if many { rng.range(19, if tier == "thorough" { 63 } else { 26 }) } else { match rng.below(4) { 0 => 0, 1 => 1, _ => rng.range(2, 6) } } as usize;
@@ -49,7 +54,7 @@ pub fn gen_plan(rng: &mut Rng, focus: &str, tier: &str, case_idx: u64) -> Plan {
     let threads: Vec<ThreadSpec> = (0..nthreads).map(|i| ThreadSpec {
         kind: if force_k1 && i == 1 { Kind::NullSp } else if boundary || stack_only { Kind::Block } else if focus == "c04" && rng.chance(1, 5) { Kind::Spin } else if rng.chance(1, 12) { Kind::NullSp } else { Kind::Block },
         sp_off: if stack_only { 0x800 } else if boundary && i >= 19 { [0u32, 8, 2040, 2048, 2056, 4088, 4095, 2047][i - 19] } else if rng.chance(3, 4) { *rng.pick(&offs) } else { rng.below(4096) as u32 },
-        pages: if rng.chance(1, 6) { rng.range(3, 33) as u32 } else { rng.range(2, 4) as u32 },
+        pages: if deep_ref && i == 0 { (10 << 16) | 3 } else if rng.chance(1, 6) { rng.range(3, 33) as u32 } else { rng.range(2, 4) as u32 },
         name: Some(format!("t{i}").into_bytes()),
         // a stack pointer whose low 32 bits are all zero or all one (multiples of 4 GiB): still an ordinary thread
         at: if focus == "c04" && i == 0 && rng.chance(1, 3) { Some(*rng.pick(&[0x7_0000_0000u64, 0x12_0000_0000, 0x6_ffff_ffff, 0x3_0000_0000 - 1])) } else { None } }).map(|mut t| { if t.at.is_some() && t.kind == Kind::NullSp { t.kind = Kind::Block; } t }).collect();
@@ -64,6 +69,7 @@ pub fn gen_plan(rng: &mut Rng, focus: &str, tier: &str, case_idx: u64) -> Plan {
     // C20: words above the stack pointer that point into the anonymous mappings (a writable non-executable one included),
     // so that a thread can reference the principal mapping from its stack only
     if low_principal { lines.push("anonat 20000000 2 rw-".into()); lines.push("poke 0 64 3 128".into()); lines.push("poke 2 1024 3 4096".into()); }
+    else if deep_ref { lines.push(format!("poke 0 {} 1 128", 9 * 4096 + 64)); lines.push("poke 2 1024 1 4096".into()); }
     else if stack_only { lines.push("poke 0 64 1 128".into()); lines.push("poke 2 1024 1 4096".into()); }
     else if focus == "c20" { for (i, t) in threads.iter().enumerate() {
         let room = 4096 - (t.sp_off & 4095 & !7);
@@ -79,15 +85,15 @@ pub fn gen_plan(rng: &mut Rng, focus: &str, tier: &str, case_idx: u64) -> Plan {
         }
     }
     let blame_late = focus == "c06" && many && !boundary && rng.chance(1, 2);
-    if lost_crash_stack { return Plan { scen: Scenario { threads, lines }, blame_late: false, crash: 1, limit: None, sanitize: false, user_maps: vec![], skip: 6, napp }; }
-    if stack_only { return Plan { scen: Scenario { threads, lines }, blame_late: false, crash: 0, limit: None, sanitize: !low_principal, user_maps: vec![], skip: if low_principal { 5 } else { 4 }, napp }; }
+    if lost_crash_stack { return Plan { scen: Scenario { threads, lines }, blame_late: false, crash: 1, limit: None, sanitize: false, user_maps: vec![], skip: 6, napp, blame_idx: None, exit_between: None }; }
+    if stack_only { return Plan { scen: Scenario { threads, lines }, blame_late: false, crash: 0, limit: None, sanitize: !low_principal, user_maps: vec![], skip: if low_principal { 5 } else { 4 }, napp, blame_idx: None, exit_between: None }; }
     Plan { scen: Scenario { threads, lines }, blame_late, crash: if blame_late { 2 } else if force_k1 { 3 } else if focus == "c05" || focus == "c07" { rng.below(4) as u8 } else if rng.chance(1, 3) { rng.range(1, 2) as u8 } else { 0 },
            limit: if blame_late || boundary { Some(1) } else if focus == "c06" { if rng.chance(2, 3) { Some(*rng.pick(&[1u64, 1000, 100_000, 200_000, 300_000, 1 << 30])) } else { None } } else if rng.chance(1, 6) { Some(1) } else { None },
            sanitize: rng.chance(1, if focus == "c12" { 1 } else { 5 }), user_maps: vec![],
-           skip: if focus == "c20" { rng.range(1, 3) as u8 } else if rng.chance(1, 8) { 1 } else { 0 }, napp }
+           skip: if focus == "c20" { rng.range(1, 3) as u8 } else if rng.chance(1, 8) { 1 } else { 0 }, napp, blame_idx: None, exit_between: None }
 }
 
-pub struct Live { pub target: Target, pub world: World, pub image: Result<Vec<u8>, String>, pub plan: Plan, pub blamed: i32, pub crash: Option<CrashContext>, pub app: Vec<(u64, usize)>, pub principal: Option<u64>, pub events: Vec<String> }
+pub struct Live { pub target: Target, pub world: World, pub image: Result<Vec<u8>, String>, pub plan: Plan, pub blamed: i32, pub crash: Option<CrashContext>, pub app: Vec<(u64, usize)>, pub principal: Option<u64>, pub events: Vec<String>, pub unattachable: Vec<i32> /* threads another tracer holds: they exist but cannot be attached */ }
 
 pub struct Configured { pub writer: MinidumpWriter, pub blamed: i32, pub crash: Option<CrashContext>, pub app: Vec<(u64, usize)>, pub principal: Option<u64>, pub ranges: Vec<(u64, usize)> }
 
@@ -96,6 +102,7 @@ pub fn configure(rng: &mut Rng, plan: &Plan, target: &Target) -> Configured {
     let blamed = match plan.crash { 2 if nth > 0 => { let cands: Vec<usize> = (0..nth).filter(|i| plan.scen.threads[*i].kind != Kind::NullSp && plan.scen.threads[*i].kind != Kind::Exiter && (!plan.blame_late || *i >= 21 || nth < 23)).collect(); if cands.is_empty() { target.pid } else { target.tids[*rng.pick(&cands)] } }
                                     3 => { let cands: Vec<usize> = (0..nth).filter(|i| plan.scen.threads[*i].kind == Kind::NullSp).collect(); if cands.is_empty() { target.pid } else { target.tids[*rng.pick(&cands)] } }
                                     _ => target.pid };
+    let blamed = match plan.blame_idx { Some(i) if i < nth => target.tids[i], _ => blamed };
     let mut writer = MinidumpWriter::new(target.pid, blamed);
     let anon: Vec<u64> = (0..3).map(|i| target.fact_hex(&format!("anon{i}"))).collect();
     // crash context: registers chosen around the target's real layout
@@ -157,9 +164,11 @@ pub fn run_plan(rng: &mut Rng, plan: Plan, work: &str) -> Result<Live, String> {
 pub fn run_plan_hist(rng: &mut Rng, plan: Plan, work: &str, fail_first: Option<usize>) -> Result<Live, String> {
     let target = Target::spawn(&plan.scen, work)?;
     let mut cfg = configure(rng, &plan, &target);
-    if let Some(k) = fail_first { let _ = dump_once_failing(&mut cfg, target.pid, Some(k)); target.settle(); }
+    let mut unattachable: Vec<i32> = Vec::new();
+    if let Some(k) = fail_first { let _ = dump_once_failing(&mut cfg, target.pid, Some(k)); target.settle();
+        if let Some(i) = plan.exit_between { unsafe { let t = target.tids[i]; libc::ptrace(libc::PTRACE_SEIZE, t, 0, 0); libc::ptrace(libc::PTRACE_INTERRUPT, t, 0, 0); let mut st = 0; libc::waitpid(t, &mut st, libc::__WALL); } unattachable.push(target.tids[i]); } }
     let (image, world, events) = dump_once(&mut cfg, target.pid)?;
-    Ok(Live { target, world, image, plan, blamed: cfg.blamed, crash: cfg.crash, app: cfg.app, principal: cfg.principal, events })
+    Ok(Live { target, world, image, plan, blamed: cfg.blamed, crash: cfg.crash, app: cfg.app, principal: cfg.principal, events, unattachable })
 }
 
 /// C19: several dumps from one configured writer; every dump is judged exactly like a fresh writer's
@@ -177,15 +186,20 @@ pub fn run_reuse(a: &Args) {
         // (the exec history uses no option that names an address of the old image: those would be stale by the caller's own doing)
         if case_idx == 1 { plan.scen.lines.retain(|l| !l.starts_with("appmem")); plan.napp = 0; plan.crash = 0; plan.skip = 0; plan.blame_late = false; }
         let grow = case_idx == 0;
+        // a third fixed history: no crash context, the blamed thread (not the main one) is held by another tracer during the first
+        // request (it cannot be attached and is left out) and free again during the second
+        let held = case_idx == 2;
+        if held { plan.crash = 0; plan.skip = 0; plan.blame_late = false; if plan.scen.threads.is_empty() { plan.scen.threads.push(ThreadSpec { kind: Kind::Block, sp_off: 0x800, pages: 2, name: Some(b"held".to_vec()), at: None }); }
+                  plan.scen.threads[0].kind = Kind::Block; plan.scen.threads[0].at = None; plan.blame_idx = Some(0); }
         if grow { plan.scen.threads.truncate(3); for t in plan.scen.threads.iter_mut() { if t.kind == Kind::NullSp { t.kind = Kind::Block; } t.at = None; } plan.limit = Some(200_000); plan.blame_late = false; plan.skip = 0; }
         // a thread that can be told to exit between two dumps (the target changes)
-        let exiter = if !grow && case_idx != 1 && rng.chance(1, 2) { plan.scen.threads.push(ThreadSpec { kind: Kind::Exiter, sp_off: 0, pages: 2, name: Some(b"exiter".to_vec()), at: None }); Some(plan.scen.threads.len() - 1) } else { None };
+        let exiter = if !grow && !held && case_idx != 1 && rng.chance(1, 2) { plan.scen.threads.push(ThreadSpec { kind: Kind::Exiter, sp_off: 0, pages: 2, name: Some(b"exiter".to_vec()), at: None }); Some(plan.scen.threads.len() - 1) } else { None };
         let mut target = match Target::spawn(&plan.scen, &work) { Ok(t) => t, Err(e) => { out.notes.push(format!("case skipped: {e}")); continue; } };
         let cfg_seed = rng.next();
         let mut cfg = configure(&mut Rng(cfg_seed), &plan, &target);
         // another fixed history: between two requests the target replaces its program image (same pid, new auxiliary vector)
         let reexec = case_idx == 1;
-        let ndumps = if grow || reexec { 2 } else { rng.range(2, if a.tier == "thorough" { 5 } else { 3 }) };
+        let ndumps = if grow || reexec || held { 2 } else { rng.range(2, if a.tier == "thorough" { 5 } else { 3 }) };
         out.count(&format!("dumps.{ndumps}"));
         for k in 0..ndumps {
             if k == 1 && grow {
@@ -206,14 +220,16 @@ pub fn run_reuse(a: &Args) {
             if k == 1 { if let Some(i) = exiter { let _ = target.cmd(&format!("x {i}")); out.count("target.thread_exited_between_dumps"); } }
             // an earlier request of the history may FAIL (destination I/O error after the thread list was written);
             // what it recorded must not leak into the later ones
-            if !grow && !reexec && k + 1 < ndumps && rng.chance(1, 3) {
+            if held && k == 0 { unsafe { let t = target.tids[0]; libc::ptrace(libc::PTRACE_SEIZE, t, 0, 0); libc::ptrace(libc::PTRACE_INTERRUPT, t, 0, 0); let mut st = 0; libc::waitpid(t, &mut st, libc::__WALL); } out.count("history.blamed_thread_held_during_first_request"); }
+            if held && k == 1 { unsafe { libc::ptrace(libc::PTRACE_DETACH, target.tids[0], 0, 0); } target.settle(); }
+            if !grow && !reexec && !held && k + 1 < ndumps && rng.chance(1, 3) {
                 let fail_at = rng.range(4, 12) as usize;
                 match dump_once_failing(&mut cfg, target.pid, Some(fail_at)) { Ok((Err(_), _, _)) => { out.count("history.failed_request"); } Ok((Ok(_), _, _)) => { out.count("history.failure_not_reached"); } Err(_) => {} }
                 continue;
             }
             match dump_once(&mut cfg, target.pid) {
                 Ok((image, world, events)) => {
-                    let lv = Live { target, world, image, plan, blamed: cfg.blamed, crash: cfg.crash.as_ref().map(|c| CrashContext { inner: c.inner.clone() }), app: cfg.app.clone(), principal: cfg.principal, events };
+                    let lv = Live { unattachable: if held && k == 0 { vec![target.tids[0]] } else { vec![] }, target, world, image, plan, blamed: cfg.blamed, crash: cfg.crash.as_ref().map(|c| CrashContext { inner: c.inner.clone() }), app: cfg.app.clone(), principal: cfg.principal, events };
                     out.count(&format!("dump.index{k}"));
                     emit(&mut out, &lv, &aspects);
                     let reused_image = lv.image.as_ref().ok().cloned();
@@ -271,7 +287,7 @@ pub fn emit(out: &mut Out, lv: &Live, aspects: &[String]) {
             let idx = lv.target.tids.iter().position(|x| *x == t.tid);
             let nullsp = idx.map(|i| lv.plan.scen.threads[i].kind == Kind::NullSp).unwrap_or(false);
             let rsp = if nullsp { 0 } else { t.regs.map(|r| r.rsp).unwrap_or_else(|| idx.map(|i| lv.target.fact_hex(&format!("t{i}.sp"))).unwrap_or(1)) };
-            l.u(t.tid as u64).b(true).u(rsp);
+            l.u(t.tid as u64).b(!lv.unattachable.contains(&t.tid)).u(rsp);
         }
         let mut r = Line::bare(); r.z(threads.len()); for t in &threads { r.u(t.tid as u64); }
         out.case(l.s(), r.s(), w.threads.iter().any(|t| t.regs.is_none() || t.regs.map(|r| r.rsp == 0).unwrap_or(false)));
@@ -435,7 +451,13 @@ pub fn run(a: &Args) {
     for case_idx in 0..a.n {
         let plan = gen_plan(&mut rng, &focus, &a.tier, case_idx);
         out.count(&format!("options.crash{}", plan.crash)); if plan.limit.is_some() { out.count("options.size_limit"); } if plan.sanitize { out.count("options.sanitize"); } if plan.skip > 0 { out.count("options.skip_unreferenced"); }
-        match run_plan(&mut rng, plan, &work) {
+        // one case in four: the writer has already served a request that was abandoned after an I/O error of its destination;
+        // one fixed C05 history per run: no crash context, the blamed thread can be attached during the abandoned request and is held by another tracer afterwards (present in the target, absent from the thread list)
+        let mut plan = plan;
+        let gone = focus == "c05" && case_idx == 1;
+        if gone { plan.crash = 0; plan.skip = 0; plan.scen.threads.push(ThreadSpec { kind: Kind::Block, sp_off: 0x800, pages: 2, name: Some(b"taken".to_vec()), at: None }); plan.blame_idx = Some(plan.scen.threads.len() - 1); plan.exit_between = plan.blame_idx; }
+        let fail_first = if gone || case_idx % 4 == 2 { out.count("history.abandoned_request_first"); Some(rng.range(4, 14) as usize) } else { None };
+        match run_plan_hist(&mut rng, plan, &work, fail_first) {
             Ok(lv) => emit(&mut out, &lv, &aspects),
             Err(e) => { out.notes.push(format!("case skipped: {e}")); out.count("case.skipped"); }
         }
